@@ -298,7 +298,7 @@ def run(ctx):
         "theorems: every face has a defined normal at the point (faces_ok); where it is not, C11_safety_center_refuted applies (finding F4)",
         "that leaving a volume requires changing the sense of one of its faces is C03's theorem; here: all senses are constant on the ball",
         "levels are related by isometries (C12 transform theorems), so a ball in a local frame is a ball in the global frame",
-        "RectArrayTracker::safety is not modelled (no rect arrays generated)",
+        "a rect-array cell is modelled as six aligned planes with the simple flag (= RectArrayTracker::safety)",
     ]
     proofs_ok = ctx.coq_prove("Properties_C11.v")
     ok, _ = ctx.coq_build(["C11/Run.vo"])
